@@ -509,6 +509,19 @@ pub fn replay_case(case: &serde_json::Value) -> String {
   if before != after {
     return format!("FAIL scope changed: {} -> {}; {}", before, after, out);
   }
+  if let Some(image) = case.get("image").and_then(|e| e.as_str()) {
+    // C08 "alike": the same call on a string of as many ASCII letters; null for null, as many characters for a string
+    let other = parse_expression(&pscope, image, false).ok().and_then(|n| evaluate(&escope, &n).ok());
+    let count = |v: &dmntk_feel::values::Value| match v {
+      dmntk_feel::values::Value::String(s) => Some(s.chars().count()),
+      _ => None,
+    };
+    return match other {
+      Some(o) if count(&o) == count(&observed) => format!("PASS {}; `{}` => {}", out, image, show_value(&o)),
+      Some(o) => format!("FAIL {}; `{}` => {}", out, image, show_value(&o)),
+      None => format!("FAIL {}; `{}` is not evaluated", out, image),
+    };
+  }
   if let Some(exp) = case.get("expected").and_then(|e| e.as_str()) {
     out = format!("{} (expected {})", out, exp);
     if crate::replay::value_to_rval(&observed).show() != exp {
